@@ -3,12 +3,12 @@
    the model's failed releases on the same layouts.
    case = Corr.C17.case with the last component d = the drop distance the harness computed.
    row = (index, farb Hrec; farb d; farb (d + 1); derr at lag Hrec; derr at lag d; derr at lag d + 1;
-   reached_heldb d; reached_heldb (d + 1))
+   reached_heldb d; reached_heldb (d + 1); no_edgeb)
    with Hrec given per case in place of the streamed flag's neighbour: see row_far. *)
 From Coq Require Import List NArith Bool.
 Import ListNotations.
 From S4.Model Require Import Retain.
-From S4.Proofs Require Import RetainFar RetainFarConv.
+From S4.Proofs Require Import RetainFar RetainFarConv RetainNoEdge.
 From S4.Corr Require Import C17.
 Open Scope N_scope.
 
@@ -25,6 +25,6 @@ Definition row_far (ic : N * fcase) :=
   let cf := {| pol := P_cur; streamed := str |} in
   (i, b2n (farb Hrec ms), b2n (farb d ms), b2n (farb (d + 1) ms),
    derr (run_layout cf bs lay Hrec), derr (run_layout cf bs lay d), derr (run_layout cf bs lay (d + 1)),
-   b2n (reached_heldb d ms), b2n (reached_heldb (d + 1) ms)).
+   b2n (reached_heldb d ms), b2n (reached_heldb (d + 1) ms), b2n (no_edgeb ms)).
 
 Definition rows_far (cs : list fcase) := map row_far (index_from 0 cs).
